@@ -178,6 +178,24 @@ func (p c18) battery(env *Env) (*Case, []*Out) {
 			}
 		}
 	}
+	// every oddity alone at a property position, under two option sets
+	for _, o := range oddities {
+		for _, opt := range []int{0, 1} {
+			w2 := *w
+			if opt == 1 {
+				w2.Opts.MinSized, w2.Opts.Extra = true, true
+			}
+			nf := *t0
+			nf.Doc = addProp(withDef(withDef(cloneObj(t0.Doc), "OddTarget", Obj{{"type", "object"}, {"properties", Obj{{"x", Obj{{"type", "string"}}}}}}), "OddPrim", Obj{{"type", "string"}, {"minLength", 2}}), "odd0", o.v)
+			spec := w2.Spec("", nil, args)
+			for i := range spec.FS {
+				if spec.FS[i].Path == "/w/a/t0f.json" {
+					spec.FS[i].Data = nf.Bytes(nil)
+				}
+			}
+			add(fmt.Sprintf("odd %s opts=%d", o.name, opt), spec, c18Run{Kind: "odd", What: o.name, Ref: -1})
+		}
+	}
 	c.Meta, _ = json.Marshal(meta)
 	env.Stats.Counters["battery_runs"] += len(c.Runs)
 	return c, outs
@@ -1192,6 +1210,13 @@ var oddityTexts = []struct{ name, json string }{
 	{"bounds-fraction-on-integer", "{\"type\": \"integer\", \"minimum\": 0.5, \"maximum\": 2.5, \"multipleOf\": 0.5}"},
 	{"multipleof-zero", "{\"type\": \"number\", \"multipleOf\": 0}"},
 	{"multipleof-negative", "{\"type\": \"integer\", \"multipleOf\": -3}"},
+	{"exclusive-min-bool-no-bound", "{\"type\":\"integer\",\"exclusiveMinimum\":true}"},
+	{"exclusive-max-bool-no-bound", "{\"type\":\"integer\",\"exclusiveMaximum\":true}"},
+	{"exclusive-max-bool-other-bound", "{\"type\":\"integer\",\"exclusiveMaximum\":true,\"minimum\":1}"},
+	{"exclusive-bool-number-no-bound", "{\"type\":\"number\",\"exclusiveMinimum\":true,\"exclusiveMaximum\":true}"},
+	{"exclusive-num-only", "{\"type\":\"integer\",\"exclusiveMinimum\":3,\"exclusiveMaximum\":300}"},
+	{"bounds-only-max-negative", "{\"type\":\"integer\",\"maximum\":-1}"},
+	{"bounds-uint64-edge", "{\"type\":\"integer\",\"minimum\":0,\"maximum\":18446744073709551615}"},
 	{"exclusive-bool-draft4", "{\"type\": \"number\", \"minimum\": 1, \"exclusiveMinimum\": true, \"maximum\": 9, \"exclusiveMaximum\": false}"},
 	{"length-negative", "{\"type\": \"string\", \"minLength\": -1}"},
 	{"length-crossed", "{\"type\": \"string\", \"minLength\": 9, \"maxLength\": 2}"},
